@@ -106,8 +106,24 @@ Section ForClass.
 
   Definition is_none {A} (o : option A) : bool := match o with None => true | Some _ => false end.
 
+  Fixpoint sl_eqb (a b : list string) : bool :=
+    match a, b with
+    | [], [] => true
+    | x :: s, y :: t => String.eqb x y && sl_eqb s t
+    | _, _ => false
+    end.
+
+  (* what is live before the loop is exactly what the converter uses as live at the end of the body (as the code stood
+     when this first part of S3 was proved the two were the same expression; with the loop bound kept live they coincide
+     when the bound's variables are live in the loop anyway) *)
+  Definition fix_ok (i : string) (bound : expr) (body : list stmt) (lo_s : sset) : bool :=
+    match live_stmt cic afuel (SFor i bound body) lo_s, loop_fixpoint cic afuel (SFor i bound body) lo_s with
+    | Some L, Some Lf => sl_eqb L Lf
+    | _, _ => false
+    end.
+
   Definition loop_ok (i : string) (bound : expr) (body : list stmt) (lo_s : sset) : bool :=
-    rhs_ok globals bound && forallb assign_ok body &&
+    fix_ok i bound body lo_s && rhs_ok globals bound && forallb assign_ok body &&
     match live_stmt cic afuel (SFor i bound body) lo_s with
     | None => false
     | Some L =>
@@ -125,7 +141,17 @@ Section ForClass.
       end
     end.
 
-  Lemma live_for_fixpoint : forall i bound body lo_s,
-    live_stmt cic afuel (SFor i bound body) lo_s = loop_fixpoint cic afuel (SFor i bound body) lo_s.
-  Proof. reflexivity. Qed.
+  Lemma sl_eqb_eq : forall a b, sl_eqb a b = true -> a = b.
+  Proof.
+    induction a as [|x s IH]; intros [|y t] H; cbn in H; try discriminate H; [reflexivity|].
+    apply andb_true_iff in H. destruct H as [H1 H2]. apply String.eqb_eq in H1. subst y. f_equal. apply IH. exact H2.
+  Qed.
+
+  Lemma fix_ok_spec : forall i bound body lo_s L, fix_ok i bound body lo_s = true ->
+    live_stmt cic afuel (SFor i bound body) lo_s = Some L -> loop_fixpoint cic afuel (SFor i bound body) lo_s = Some L.
+  Proof.
+    intros i bound body lo_s L H Hl. unfold fix_ok in H. rewrite Hl in H.
+    destruct (loop_fixpoint cic afuel (SFor i bound body) lo_s) as [Lf|]; [|discriminate H].
+    apply sl_eqb_eq in H. subst Lf. reflexivity.
+  Qed.
 End ForClass.
